@@ -43,6 +43,7 @@ def run(facts, rep):
     d2_buckets(facts, rep)
     d3_skiplist(facts, rep)
     d4_dispose_once(facts, rep)
+    d5_bucket_count_pow2(facts, rep)
 
 
 def d1_list(facts, rep):
@@ -292,3 +293,137 @@ def d4_dispose_once(facts, rep):
                    'same-key race destroys its element twice and frees the node twice'
                    % ', '.join('line %s' % x[2]['ln'] for x in (bad[0] if bad else ())))
     rep.floor('D4', 4, 'callers of internal_insert / internal_insert_node')
+
+
+def d5_bucket_count_pow2(facts, rep):
+    """Split ordering: bucket b of a table with B buckets starts at the dummy node with the bit-reversed order key of b, and
+    `hash % B` selects the bucket whose dummy precedes every element with that hash - which holds only when B is a power of
+    two (then hash % B is the low bits of the hash and every bucket's parent is b with its top bit cleared).  With any other B
+    lookups start behind the element: present keys are not found, duplicates are accepted, traversals visit keys twice.
+    Rule: every value written to my_bucket_count (store, exchange, desired value of a compare-exchange, constructor
+    initialiser) is a power of two by construction.  Abstract domain, one bit: POW2 values are constants that are powers of two,
+    results of round_up_to_power_of_two, values read from a my_bucket_count (of this or another container - the invariant),
+    POW2 * 2^k, POW2 << k, and variables all of whose reaching definitions are POW2 (a compound <<= / *= 2 keeps the class; the
+    `expected` argument of a compare-exchange on my_bucket_count is refreshed from it)."""
+    def is_pow2_const(c):
+        return c is not None and c > 0 and (c & (c - 1)) == 0
+
+    def bounded_above(fn, pos, vid):
+        """some edge that dominates pos bounds variable vid from above (vid < X / vid <= X true, mirrored, or the negations false)"""
+        def atom(a, truth):
+            an = fn.n(fn.strip(a))
+            if an.get('k') != 'binop' or an['op'] not in ('<', '<=', '>', '>='):
+                return False
+            l, r = fn.n(fn.strip(an['l'])), fn.n(fn.strip(an['r']))
+            op = an['op'] if truth else {'<': '>=', '<=': '>', '>': '<=', '>=': '<'}[an['op']]
+            if l.get('k') == 'var' and l.get('v') == vid and op in ('<', '<='):
+                return True
+            if r.get('k') == 'var' and r.get('v') == vid and op in ('>', '>='):
+                return True
+            return False
+        return pos is not None and dominated_by_edges(fn, pos, edges_where(fn, atom))[0]
+
+    def doubled_var(fn, x):
+        xn = fn.n(fn.strip(x))
+        return xn.get('v') if xn.get('k') == 'var' else None
+
+    def pow2(fn, defs, x, depth=0, assume=()):
+        if depth > 8 or x is None or x < 0:
+            return False
+        c = fn.cv(x)
+        x = fn.strip(x)
+        n = fn.n(x)
+        k = n.get('k')
+        if c is None:
+            c = fn.cv(x)
+        if c is not None:
+            return is_pow2_const(c)
+        if k == 'var' and n.get('v') in assume:
+            return True
+        if k in ('cast', 'rd', 'paren'):
+            return pow2(fn, defs, n['sub'], depth + 1, assume)
+        if k == 'ctor' and len(n.get('a', [])) == 1:
+            return pow2(fn, defs, n['a'][0], depth + 1, assume)
+        if k == 'call':
+            d = fn.callee(x) or {}
+            if d.get('n') == 'round_up_to_power_of_two':
+                return True
+            op = atomic_op(fn, x)
+            if op and op['kind'] == 'load' and last_member(fn, op['obj']) == 'my_bucket_count':
+                return True
+            return False
+        if k == 'binop':
+            if n['op'] in ('*', '<<'):
+                # doubling keeps the class only while it cannot wrap: the doubled variable is bounded from above on a dominating edge
+                ok_cls = (pow2(fn, defs, n['l'], depth + 1, assume) and pow2(fn, defs, n['r'], depth + 1, assume)) if n['op'] == '*' \
+                    else pow2(fn, defs, n['l'], depth + 1, assume)
+                if not ok_cls:
+                    return False
+                dv = doubled_var(fn, n['l']) if doubled_var(fn, n['l']) is not None else doubled_var(fn, n['r'])
+                if dv is None:
+                    return fn.cv(n['l']) is not None and fn.cv(n['r']) is not None
+                if not bounded_above(fn, fn.pos_of(x), dv):
+                    unguarded.append('%s at line %s can wrap to 0' % (fn.path(x), n.get('ln')))
+                    return False
+                return True
+            return False
+        if k == 'var':
+            pos = fn.pos_of(x)
+            ds = defs.reaching(pos, n['v']) if pos is not None else None
+            if not ds:
+                return False
+            for dn in ds:
+                if dn == -1:
+                    return False                      # a parameter: anything
+                val = defs.value_of.get((n['v'], dn))
+                if val is not None:
+                    if not pow2(fn, defs, val, depth + 1, assume):
+                        return False
+                    continue
+                dnode = fn.nodes[dn]
+                if dnode.get('k') == 'binop' and dnode.get('op') in ('<<=',):
+                    if not bounded_above(fn, fn.pos_of(dn), n['v']):
+                        unguarded.append('%s <<= ... at line %s can wrap to 0' % (n.get('n'), dnode.get('ln')))
+                        return False
+                    continue
+                if dnode.get('k') == 'binop' and dnode.get('op') == '*=' and is_pow2_const(fn.cv(dnode['r'])):
+                    continue
+                opd = atomic_op(fn, dn) if dnode.get('k') == 'call' else None
+                if opd and last_member(fn, opd['obj']) == 'my_bucket_count':
+                    continue                           # compare-exchange refreshes its `expected` argument from the counter
+                return False
+            return True
+        return False
+    n = 0
+    unguarded = []
+    for fn in facts.fns.values():
+        if not (fn.cls or '').startswith(D2N + 'concurrent_unordered_base'):
+            continue
+        defs = None
+        for pos, o in atomic_ops(fn):
+            if o['kind'] not in ('store', 'rmw', 'cas') or last_member(fn, o['obj']) != 'my_bucket_count':
+                continue
+            defs = defs or Defs(fn)
+            val = o.get('val', -1)
+            n += 1
+            assume = ()
+            if o['kind'] == 'cas' and o.get('expected', -1) >= 0:
+                # the desired value is installed only if the counter equals `expected`: inside the desired expression the
+                # expected variable stands for the current (power-of-two) bucket count
+                en = fn.n(fn.strip(o['expected']))
+                if en.get('k') == 'var':
+                    assume = (en['v'],)
+            rep.ob('D5', 'K10', fn, 'the bucket count written at line %s is a power of two by construction' % o['ln'], pow2(fn, defs, val, 0, assume),
+                   'value written: %s %s- with a bucket count that is not a power of two `hash %% count` selects a bucket whose dummy node lies '
+                   'behind the element: present keys are not found, a second insert of the key succeeds, traversals see it twice'
+                   % (fn.path(val), ('(' + '; '.join(unguarded[-1:]) + ') ') if unguarded else ''), ln=o['ln'], key_extra='pow2|%s|%s' % (fn.p, o['ln']))
+        # constructor initialisers of the member
+        for b, i, e in fn.iter_elems():
+            if isinstance(e, dict) and e.get('i') == 'my_bucket_count' and e.get('s', -1) >= 0:
+                defs = defs or Defs(fn)
+                n += 1
+                rep.ob('D5', 'K10', fn, 'the bucket count a container is constructed with is a power of two (line %s)' % e.get('ln'),
+                       pow2(fn, defs, e['s']), 'initialiser: %s' % fn.path(e['s']), ln=e.get('ln'), key_extra='pow2init|%s|%s' % (fn.p, e.get('ln')))
+    if n < 6:
+        raise AnalysisBroken('writes of my_bucket_count not found (%d)' % n)
+    rep.floor('D5', 6, 'bucket count writers')
